@@ -7,7 +7,7 @@
      S <idx> <hex>      SetField
      L <idx> <hex>      GetlineField
      K <hex>            GetlineVar
-     M <idx> <kind>     ModField, kind in suba gsuba app id idsv incr add2
+     M <idx> <kind>     ModField, kind in suba gsuba subempty subsame gsubsame app id idsv incr add2
      N                  GetNF
      W <bits> <hex>     SetNF (value: number bits, CONVFMT string)
      D <d>              ModNF (NF += d)
@@ -114,6 +114,11 @@ let modfun = function
   | "gsuba" -> (fun l -> Ok (gsub_all l))
   | "app" -> (fun l -> Ok (Some (l @ [z_of_int 120])))
   | "id" | "idsv" -> (fun l -> Ok (Some l))
+  (* substitutions that match and leave the text as it is: sub(/^/, "", $i) always matches;
+     sub(/b/, "b", $i), gsub(/b/, "b", $i) match when there is a b *)
+  | "subempty" -> (fun l -> Ok (Some l))
+  | "subsame" | "gsubsame" ->
+      (fun l -> Ok (if List.exists (fun c -> int_of_z c = 98) l then Some l else None))
   | "incr" -> add_int 1
   | "add2" -> add_int 2
   | k -> failwith ("bad modfield kind " ^ k)
